@@ -125,7 +125,7 @@ class IntervalConversions(Case):
 
     def __init__(self, n, chunk):
         self.n, self.chunk = n, chunk
-        self.shard_depth = 4
+        self.shard_depth = 7 if (n >= 2 and chunk) else 4
         self.name = (f"TranscriptInterval interval conversions = point-wise maps[{n} exons"
                      + (", chunk cutting the transcript" if chunk == "cuts" else "") + "]")
         self.call = ("(tx.transcript_interval_to_sequence(a, b, Strand.PLUS), "
@@ -296,6 +296,40 @@ class UtrFrameshift(Case):
         return [obs_loc(r[0])[:2], obs_loc(r[1])[:2]]
 
 
+class PosCommuteFrameshift(Case):
+    """position conversions of a transcript whose CDS has an internal -1 / +1 frameshift inside one exon (two CDS
+    blocks overlapping by one base / skipping one base): chromosome -> CDS equals chromosome -> transcript -> CDS, and
+    both equal the point-wise map over the CDS blocks walked 5'->3' (a base covered twice answers with its FIRST
+    occurrence); CDS -> transcript is consistent with chromosome -> transcript."""
+    props = ("C06",)
+    func = TRANSCRIPT + ".transcript_pos_to_cds"
+
+    def __init__(self, delta):
+        self.delta = delta
+        self.name = f"TranscriptInterval position conversions with an internal {'+1' if delta > 0 else '-1'} frameshift in the CDS[1 exon]"
+        self.call = ("(tx.sequence_pos_to_cds(p), tx.transcript_pos_to_cds(tx.sequence_pos_to_transcript(p)), "
+                     "tx.cds_pos_to_transcript(tx.sequence_pos_to_cds(p)), tx.sequence_pos_to_transcript(p))")
+        self.raises = {"InvalidPositionException": lambda i: Not(in_blocks(i.cds_s, i.cds_e, i.p))}
+        self.ensures = {
+            "chromosome-to-cds-value": lambda i, r: r[0] == rel_pos(i, i.cds_s, i.cds_e, i.p),
+            "both-paths-agree": lambda i, r: r[0] == r[1],
+            "cds-to-transcript-consistent": lambda i, r: r[2] == r[3],
+        }
+
+    def inputs(self, S):
+        starts, ends = block_lists(S, "tx", 1)
+        strand = strand_of(S, "strand")
+        c0, m, c1 = S.int("cds_c0"), S.int("cds_m"), S.int("cds_c1")
+        m2 = m + self.delta
+        S.assume(And(starts[0] <= c0, c0 < m, c0 < m2, m2 < c1, m < c1, c1 <= ends[0]))
+        zero = S.enum_const(FRAME, "ZERO")
+        tx = S.new(TRANSCRIPT, starts, ends, strand, cds_starts=[c0, m2], cds_ends=[m, c1], cds_frames=[zero, zero])
+        plus = (strand.members[strand.idx][0] if hasattr(strand, "members") else strand.name) == "PLUS"
+        return NS(tx=tx, starts=starts, ends=ends, cds_s=[c0, m2], cds_e=[m, c1], plus=plus, p=S.int("p"))
+
+    samples = UtrFrameshift.samples
+
+
 class Introns(Case):
     props = ("C06",)
     func = "gene.interval.AbstractFeatureInterval.chromosome_gaps_location"
@@ -327,4 +361,5 @@ class Introns(Case):
 
 CASES = [PosCommute(1), PosCommute(2), PosCommute(3), PosCommute(1, True), PosCommute(2, True), TxOutsideCds(2), UtrPartition(1), UtrPartition(2),
          UtrPartition(3), Introns(2), Introns(3), IntervalConversions(1, "cuts"), IntervalConversions(2, "cuts"),
-         IntervalConversions(2, False), UtrFrameshift(-1), UtrFrameshift(1)]
+         IntervalConversions(2, False), UtrFrameshift(-1), UtrFrameshift(1), PosCommuteFrameshift(-1),
+         PosCommuteFrameshift(1)]
